@@ -641,17 +641,15 @@ def run(ctx):
 
 
 def import_cause(c):
-    runs = getattr(c, "runs", None)
-    if runs:
-        for run in runs[0]:
-            for s in run:
-                if s["n"] and s["c"]:
-                    return "aliased-spec-with-line-comment"
-    if "=>" in c.src and re.search(r'=> \w+[ \t]*(//|/\*)', c.src):
-        return "aliased-spec-with-line-comment"
+    """root cause class of a failure that involves the import declarations, from the source's import runs"""
     a = getattr(c, "a", None)
-    if a:
-        for run in pn_runs(a["runs"]):
-            if len(set(run)) < len(run):
-                return "duplicate-spec:" + c.fail[0][0]
+    runs = json.loads(unhx(a["runs"])) if a else []
+    for run in runs:
+        for sp in run:
+            if sp["n"] and sp["c"]:
+                return "aliased-spec-with-line-comment"
+    for run in runs:
+        pn = [(sp["p"], sp["n"]) for sp in run]
+        if len(set(pn)) < len(pn):
+            return "duplicate-spec:" + c.fail[0][0]
     return c.fail[0][0]
